@@ -386,6 +386,9 @@ func buildEvidence(eng *engine, id, tier string, seed int, units []*unit, jobs, 
 	}
 	cv["known_findings_matched"] = kl
 	cv["obligations_discharged_only_outside_known_findings"] = nkf
+	if crossInfo != nil && tier == "thorough" {
+		cv["cross_check"] = crossInfo
+	}
 	cv["explanation"] = "every obligation is one contract clause (or automatic safety condition) on one control-flow path of the real function between cut points; all inputs and all loop iteration counts are covered by the quantifier-free/quantified SMT query (loops by inductive invariants, no unrolling unless stated)"
 	for n := range notes {
 		ev.Assumptions = append(ev.Assumptions, n)
